@@ -1,0 +1,56 @@
+//go:build verif
+
+// Contracts for package client/gnmi, checked by /verif/gvc (comment-only file,
+// compiled only under the build tag "verif").
+package client
+
+// delivered: number of notifications handed to the application's handler;
+// lastWasConnected: the last one was the synthetic Connected.
+//@ ghost delivered int
+//@ ghost connectedSent int
+//@ func field Client.handler (n)
+//@   effect delivered := delivered + 1
+//@   effect connectedSent := connectedSent + ite(isa(n.(client.Connected)), 1, 0)
+//@   note the application's notification handler is assumed not to touch the client
+
+// What protobuf decoding guarantees for a received response (see package cache).
+//@ pred RespWf(resp *gpb.SubscribeResponse) := resp != nil && (resp.Response != nil ==> payload(resp.Response) != nil)
+//@   && (isa(resp.Response.(*gpb.SubscribeResponse_Update)) ==> NWf(resp.Response.(*gpb.SubscribeResponse_Update).Update))
+//@ pred NWf(n *gpb.Notification) := n != nil && allocated(n.Update) && allocated(n.Delete)
+//@   && (forall i int :: 0 <= i && i < len(n.Update) ==> n.Update[i] != nil)
+
+// One notification out of one update / delete: the path is the prefix followed by the
+// index form of the update's path, in an array of its own; a delete when there is no
+// update, otherwise an update carrying the decoded scalar and the duplicate count.
+//@ func noti
+//@   props C01 C12 C19
+//@   requires AllTVWf()
+//@   ensures [delete C01] u == nil ==> res1 == nil && isa(res0.(client.Delete)) && view(res0.(client.Delete).Path) == view(prefix) ++ idxpath(pp, false) && res0.(client.Delete).TS == ts
+//@   ensures [update C01] u != nil && u.Val != nil && res1 == nil ==> isa(res0.(client.Update)) && view(res0.(client.Update).Path) == view(prefix) ++ idxpath(pp, false)
+//@     && res0.(client.Update).TS == ts && res0.(client.Update).Dups == u.Duplicates
+//@   ensures [path-not-shared C01] u == nil ==> fresh(res0.(client.Delete).Path)
+//@   ensures [never-a-synthetic-notification C18] !isa(res0.(client.Connected))
+
+// The first message of a stream is preceded by Connected, once; every update and
+// every delete of an update response is decoded and delivered, in order, updates first.
+//@ func (*Client).defaultRecv
+//@   props C18 C01 C12
+//@   requires c != nil && c.handler != nil && AllTVWf() && (isa(msg.(*gpb.SubscribeResponse)) ==> RespWf(msg.(*gpb.SubscribeResponse)))
+//@   modifies ghost delivered, ghost connectedSent, c.connected
+//@   invariant 0: c.connected && connectedSent == old(connectedSent) + ite(old(c.connected), 0, 1) && delivered == old(delivered) + ite(old(c.connected), 0, 1) + $i && 0 <= $i && $i <= len(n.Update)
+//@   invariant 1: c.connected && connectedSent == old(connectedSent) + ite(old(c.connected), 0, 1) && delivered == old(delivered) + ite(old(c.connected), 0, 1) + len(n.Update) + $i && 0 <= $i && $i <= len(n.Delete)
+//@   assert at call field Client.handler#0: [connected-comes-first C18] delivered == old(delivered) && !c.connected
+//@   ensures [connected-exactly-once-per-stream C18] c.connected && connectedSent == old(connectedSent) + ite(old(c.connected), 0, 1)
+//@   ensures [nothing-dropped C01] res0 == nil && isa(msg.(*gpb.SubscribeResponse)) && isa(msg.(*gpb.SubscribeResponse).Response.(*gpb.SubscribeResponse_Update)) ==>
+//@     delivered == old(delivered) + ite(old(c.connected), 0, 1) + len(msg.(*gpb.SubscribeResponse).Response.(*gpb.SubscribeResponse_Update).Update.Update)
+//@       + len(msg.(*gpb.SubscribeResponse).Response.(*gpb.SubscribeResponse_Update).Update.Delete)
+
+//@ func (*Client).Peer
+//@   props C12
+//@   requires c != nil
+
+//@ func getType
+//@   props C01 C12
+//@ func pathToString
+//@   props C01 C12
+//@   invariant 0: fresh(qq) && len(qq) == len(q)
